@@ -66,12 +66,24 @@ def jsonable(o):
 # ------------------------------------------------------------------ worker side
 
 
+_CASE_NO = [0]
+
+
 def run_one(mod, case):
     """Run one case; map unexpected exceptions to violation (raised inside aspire) or
     harness error (inconclusive)."""
     t0 = time.time()
+    # ambient condition: every fourth case of every check runs with the library's logger at DEBUG (records discarded), as a
+    # user debugging a run would have it: debug-only code paths and every debug format string are executed there
+    dbg = _CASE_NO[0] % 4 == 3
+    _CASE_NO[0] += 1
     try:
-        res = mod.run_case(case) or {}
+        if dbg:
+            with env.debug_logging():
+                res = mod.run_case(case) or {}
+            res.setdefault("counters", {})["cases_under_debug_logging"] = res["counters"].get("cases_under_debug_logging", 0) + 1
+        else:
+            res = mod.run_case(case) or {}
     except BaseException as exc:  # noqa: BLE001
         if isinstance(exc, (KeyboardInterrupt, SystemExit)):
             raise
